@@ -1700,6 +1700,9 @@ def test_set(expr, pattern, tks, result):
 
     if not pattern in tks:
         return expr == pattern
+    if pattern.size != expr.size:
+        # A joker stands for an expression of its own size
+        return False
     if pattern in result and result[pattern] != expr:
         return False
     result[pattern] = expr
